@@ -271,7 +271,8 @@ class Constraint:
         root_op = self._ast.root
         return (root_op.is_term() or
                 (root_op.data == ASTOperation.NOT and
-                (root_op.left.is_term() or root_op.right.is_term())))
+                ((root_op.left is not None and root_op.left.is_term()) or
+                 (root_op.right is not None and root_op.right.is_term()))))
 
     def is_simple_constraint(self) -> bool:
         """Return true if the constraint is a simple constraint (requires or excludes)."""
